@@ -17,6 +17,7 @@ From WG Require Import Split.Model.
 From WG Require Import Split.ArcList.
 From WG Require Import Algo.Scc.
 From WG Require Import Algo.Llp.
+From WG Require Import Algo.BigCheck.
 From WG Require Import Algo.EssSpec.
 From WG Require Import Algo.Ess.
 From WG Require Import Algo.EssScc.
@@ -168,6 +169,9 @@ Extraction "model.ml"
   check_monotone
   check_inverse
   check_iso
+  big_check_inverse
+  big_check_ranks
+  big_check_sort_by_size
   EssSpecM.wf_graph
   dist_matrix
   eccs_f
